@@ -7,6 +7,7 @@ import (
 	"strings"
 
 	"github.com/datastax/go-cassandra-native-protocol/frame"
+	"github.com/datastax/go-cassandra-native-protocol/message"
 	"github.com/datastax/go-cassandra-native-protocol/primitive"
 
 	"verif/internal/gen"
@@ -210,6 +211,37 @@ func runC02(res *lp.Result) {
 		{"v4 READY (empty body)", specFrame(0x84, 4, 0x02, nil)},
 		{"v3 EVENT STATUS_CHANGE UP 127.0.0.1:9042", specFrame(0x83, 3, 0x0C,
 			append(append(specString("STATUS_CHANGE"), specString("UP")...), append([]byte{4, 127, 0, 0, 1}, be32(9042)...)...))},
+	}
+	// "<data_present> … 0 means that the replica that was asked for data has not responded, otherwise the value is != 0": any non-zero
+	// byte denotes true (the specification does not say 1)
+	for _, dp := range []byte{0x00, 0x01, 0x02, 0x80, 0xff} {
+		for _, code := range []int{0x1200, 0x1300} {
+			rest := [][]byte{be16(1), be32(1), be32(2)}
+			if code == 0x1300 {
+				rest = append(rest, be32(1)) // <numfailures> (v4)
+			}
+			rest = append(rest, []byte{dp})
+			data := specFrame(0x84, 4, 0x00, errBody(code, rest...))
+			what := fmt.Sprintf("v4 ERROR 0x%04x with <data_present> = 0x%02x", code, dp)
+			res.Count("spec-vectors")
+			res.Case("vector "+what, true)
+			f, err := codec.DecodeFrame(bytes.NewReader(data))
+			if err != nil {
+				res.Add(lp.Finding{Kind: "violation", What: "specification-formatted frame is not decoded: " + what, Input: hex.EncodeToString(data), Impl: firstWords(err.Error())})
+				continue
+			}
+			got := false
+			switch m := f.Body.Message.(type) {
+			case *message.ReadTimeout:
+				got = m.DataPresent
+			case *message.ReadFailure:
+				got = m.DataPresent
+			}
+			if got != (dp != 0) {
+				res.Add(lp.Finding{Kind: "violation", What: "specification-formatted bytes decode to another message than they denote: " + what + fmt.Sprintf(" decodes with DataPresent=%v", got),
+					Input: hex.EncodeToString(data)})
+			}
+		}
 	}
 	for _, vc := range vectors {
 		res.Count("spec-vectors")
